@@ -551,7 +551,11 @@ def r05_9(ctx: Ctx):
             else:
                 obs.append(ctx.ob("R05.9", m, rets[0], detail=f"AllStopped: no deme of any level is active (tree.{acc} empty)", construct="AllStopped"))
     # -- evaluation limits: R03.6
-    for o in c03.r03_6(ctx):
+    try:
+        lim = c03.r03_6(ctx)
+    except AnalysisError as e:
+        lim = [ctx.ob("R05.9", None, None, subject="stop_conditions.gsc", loc="-", status=INCONCLUSIVE, detail=f"the evaluation-limit conditions are not in the form R03.6 reads ({e})", construct="eval-limits")]
+    for o in lim:
         if not getattr(o, "trivial", False):
             o.rule = "R05.9"
             obs.append(o)
